@@ -41,6 +41,7 @@ CONSTANTS Variants,   \* libraries of the catalogue offered in this model (subse
           Indents,    \* indents offered to show
           Cap,        \* the libraries' own counters are observed saturating at Cap
           AsBuilt, TrackMain,
+          Bounded,    \* TRUE in the bounded models (switches the two model bounds below on), FALSE for trace validation
           Obs(_, _, _, _)   \* observation hook (op, args, ret, post-state)
 
 VARIABLES o, refs, inst, gorder, stale, main,
@@ -60,8 +61,9 @@ HasInit(v)  == CASE v = 1 -> 1 [] v = 3 -> 2 [] v = 5 -> 1 [] OTHER -> 0     \* 
 HasRun(v)   == v \in {1, 2, 3}
 DoneKind(v) == CASE v \in {1, 2, 3} -> 1 [] v = 5 -> 2 [] OTHER -> 0           \* 0 absent, 1 succeeds, 2 vetoes
 Has(v, fn)  == CASE fn = "init" -> HasInit(v) # 0 [] fn = "run" -> HasRun(v) [] fn = "done" -> DoneKind(v) # 0 [] OTHER -> FALSE
-(*   paths 1..5  <dir>/<library>.so         6  <dir>/missing.so (no such file)   7  <dir>/notso.so (a text file)  *)
-(*         8     full.so  (no slash: found through the library search path)      9  x05nosuch.so (no slash, absent) *)
+(*   paths 1..5  <library>.so  (no slash: found through the library search path)                                  *)
+(*         6  <dir>/missing.so (no such file)     7  <dir>/notso.so (a text file)     8  <dir>/full.so            *)
+(*         9  x05nosuch.so (no slash, absent)                                                                     *)
 (*         15/11 <dir>/././.../full.so of 4094 / 4095 characters (the longest the kernel takes)                   *)
 (*         12/13/14  the same with 4096 / 4097 / 9000 characters (ENAMETOOLONG)                                   *)
 Lib(p)      == CASE p \in 1 .. 5 -> p [] p \in {8, 11, 15} -> 1 [] OTHER -> 0   \* the library dlopen(path) maps, 0 = fails
@@ -72,8 +74,8 @@ Derived(p)  == 200 + BaseId(p)
 \* ranks of the texts (the check verifies at start-up that the real texts sort this way)
 NameRank(n) == CASE n = 1 -> 10 [] n = 2 -> 90 [] n = 204 -> 20 [] n = 201 -> 30 [] n = 203 -> 40 [] n = 206 -> 50
                  [] n = 202 -> 60 [] n = 207 -> 70 [] n = 205 -> 95 [] n = 209 -> 96 [] OTHER -> 0
-PathRank(p) == CASE p = 4 -> 20 [] p = 1 -> 30 [] p = 3 -> 40 [] p = 6 -> 50 [] p = 2 -> 60 [] p = 7 -> 70 [] p = 5 -> 80
-                 [] p = 8 -> 100 [] p = 9 -> 110 [] p \in 11 .. 15 -> p - 10 [] OTHER -> 0
+PathRank(p) == CASE p = 14 -> 1 [] p = 13 -> 2 [] p = 12 -> 3 [] p = 11 -> 4 [] p = 15 -> 5 [] p = 8 -> 10 [] p = 6 -> 11 [] p = 7 -> 12
+                 [] p = 4 -> 20 [] p = 1 -> 30 [] p = 3 -> 40 [] p = 2 -> 60 [] p = 5 -> 80 [] p = 9 -> 110 [] OTHER -> 0
 
 ------------------------------------------------------------------------------------------------
 NilObj == [live |-> FALSE, name |-> 0, path |-> 0, h |-> 0, mh |-> FALSE]
@@ -189,10 +191,13 @@ OpDup(s, t) ==
 OpSetName(s, n) == /\ o[s].live /\ ObjStep("set_name", <<s, n>>, 1, [o EXCEPT ![s].name = n])
 OpSetPath(s, p) == /\ o[s].live /\ ObjStep("set_path", <<s, p>>, 1, [o EXCEPT ![s].path = p])       \* C: also while loaded
 \* I (aliasing): handing an object its own current value back changes nothing
+\* (a bound of the model, not of the contract: the handle setters and the calls into the module are offered on unnamed
+\*  objects only - the name plays no part in them, and every path / library / counter combination occurs unnamed too)
+Unnamed(s)       == Bounded => o[s].name = 0
 OpSetNameSame(s) == /\ o[s].live /\ o[s].name # 0 /\ Same("set_name_same", <<s>>, 1, FALSE)
 OpSetPathSame(s) == /\ o[s].live /\ o[s].path # 0 /\ Same("set_path_same", <<s>>, 1, FALSE)
-OpSetMhSame(s)   == /\ o[s].live /\ Same("set_mh_same", <<s>>, 1, FALSE)      \* set_module_handle(get_module_handle())
-OpSetMainSame(s) == /\ o[s].live /\ Same("set_main_same", <<s>>, 1, FALSE)    \* set_main_handle(get_main_handle())
+OpSetMhSame(s)   == /\ o[s].live /\ Unnamed(s) /\ Same("set_mh_same", <<s>>, 1, FALSE)      \* set_module_handle(get_module_handle())
+OpSetMainSame(s) == /\ o[s].live /\ Unnamed(s) /\ Same("set_main_same", <<s>>, 1, FALSE)    \* set_main_handle(get_main_handle())
 
 ------------------------------------------------------------------------------------------------
 (* load / unload *)
@@ -236,7 +241,7 @@ OpUnload(s, f) ==
 (* calling into the module *)
 \* run(): the module's own `run`; FALSE, and nothing called, when the object is not loaded or the module has none (I).
 OpRun(s, f) ==
-    /\ o[s].live
+    /\ o[s].live /\ Unnamed(s)
     /\ LET v == o[s].h
            hk == Hook(v, IsOpen(v), "run", f, gorder)
        IN  IF hk = 0 THEN Step("run", <<s, f>>, s, 0, <<>>, v = 0, o, refs, inst, gorder, stale + StaleN(v, 1), main)
@@ -244,7 +249,7 @@ OpRun(s, f) ==
 \* call(fname, data): looks the function up like getsym (C) and calls it; `echo` returns its argument (r = 1: the value
 \* came back); a function that cannot be found: NULL, nothing is called (I).
 OpCall(s, fname, f) ==
-    /\ o[s].live
+    /\ o[s].live /\ Unnamed(s)
     /\ LET v == o[s].h
            w == Found(v, IF fname = "echo" THEN "mod" ELSE "nosuch", f)
        IN  IF w = 0 THEN Step("call", <<s, fname, f>>, s, 0, <<>>, FALSE, o, refs, inst, gorder, stale + StaleN(v, 1), main)
@@ -257,7 +262,7 @@ OpGetsym(s, sym, f) ==
 (* NULL arguments (stated for the whole library by C16/C20: soft failure at debug level 0, the ASSERT is fatal above) *)
 Soft(lvl) == IF lvl >= 1 THEN 99 ELSE 0
 NullFns == {"init", "done", "del", "dup", "type", "load", "unload", "run", "call", "getsym"}
-NullOffered == \A s \in Slots : o[s].name = 0      \* a bound of the model, not of the contract: offered beside unnamed objects only
+NullOffered == Bounded => \A s \in Slots : o[s].name = 0      \* a bound of the model, not of the contract: offered beside unnamed objects only
 OpNullSelf(fn, lvl) == /\ fn \in NullFns /\ NullOffered /\ Same("null_self", <<fn, lvl>>, Soft(lvl), TRUE)
 OpNullSym(s, lvl)   == /\ o[s].live /\ NullOffered /\ Same("null_sym", <<s, lvl>>, Soft(lvl), TRUE)        \* getsym(m, NULL)
 OpNullFname(s, lvl) == /\ o[s].live /\ NullOffered /\ Same("null_fname", <<s, lvl>>, Soft(lvl), TRUE)      \* call(m, NULL, d)
